@@ -3,7 +3,7 @@ import os, re
 from fractions import Fraction
 import common
 
-MODEL_OPS = {"new", "opendata", "selectsong", "songs", "tracks", "hook", "loop", "loopcount", "loophooksonly", "tempo", "trackopt", "chanen", "total",
+MODEL_OPS = {"new", "opendata", "openfiledata", "selectsong", "songs", "tracks", "hook", "loop", "loopcount", "loophooksonly", "tempo", "trackopt", "chanen", "total",
              "loopstart", "loopend", "tell", "atend", "tick", "tickall", "playlog", "seek", "rewind"}
 PREFIX = ["new 44100", "openbankfile %s" % os.path.join(common.REPO, "fm_banks", "gm.wopn"), "hook raw 1", "hook rt 1"]
 
@@ -118,13 +118,13 @@ def compare(ctx, prop, histories, results, tag="seq"):
                 unknown = True                # a format the model does not cover was loaded: no opinion until the model accepts a file again
                 continue
             if unknown:
-                if o.startswith("opendata") and a == "ret=0":
+                if o.startswith(("opendata", "openfiledata")) and a == "ret=0":
                     unknown = False
-                elif o.startswith("opendata"):
+                elif o.startswith(("opendata", "openfiledata")):
                     pass                      # acceptance itself is still compared
                 else:
                     continue
-            if o.startswith("opendata") and a != "ret=0":
+            if o.startswith(("opendata", "openfiledata")) and a != "ret=0":
                 unknown = True                # a rejected file leaves the previous song in a state the model does not track (tempo, loop flags)
             b = core(io[k]) if k < len(io) else "<missing>"
             if a != b:
